@@ -261,6 +261,11 @@ type family struct {
 	members [][]string // each member is one or two words
 }
 
+// histPath: a history file inside the run's scratch directory (fzf creates the file when it parses the option).
+func histPath(n int) string {
+	return filepath.Join(vk.Scratch(), fmt.Sprintf("verif-h%d", n))
+}
+
 func valued(opt string, vals ...string) family {
 	f := family{name: opt}
 	for _, v := range vals {
@@ -303,7 +308,7 @@ var families = []family{
 	flags("mouse", "--no-mouse"), flags("extended", "-x", "--extended", "+x", "--no-extended"), flags("multi-line", "--multi-line", "--no-multi-line"),
 	flags("filepath-word", "--filepath-word", "--no-filepath-word"), flags("ambidouble", "--ambidouble", "--no-ambidouble"),
 	{name: "listen", members: [][]string{{"--listen=1234"}, {"--listen", "localhost:2345"}, {"--listen-unsafe=3456"}, {"--listen-unsafe", "0.0.0.0:4567"}, {"--no-listen"}, {"--no-listen-unsafe"}}},
-	{name: "history", members: [][]string{{"--history=/tmp/verif-h1"}, {"--history", "/tmp/verif-h2"}, {"--no-history"}}},
+	{name: "history", members: [][]string{{"--history=" + histPath(1)}, {"--history", histPath(2)}, {"--no-history"}}},
 	{name: "preview", members: [][]string{{"--preview=echo {}"}, {"--preview", "cat {}"}, {"--no-preview"}}},
 }
 
@@ -356,7 +361,7 @@ func commute(r *vk.Run, rng *rand.Rand) {
 	pool := append(append([]family{}, families...), valued("--history-size", "3", "7", "50"))
 	f, g := pool[rng.Intn(len(pool))], pool[rng.Intn(len(pool))]
 	if rng.Intn(6) == 0 {
-		f, g = pool[len(pool)-1], family{name: "history", members: [][]string{{"--history=/tmp/verif-h1"}, {"--history", "/tmp/verif-h2"}}}
+		f, g = pool[len(pool)-1], family{name: "history", members: [][]string{{"--history=" + histPath(1)}, {"--history", histPath(2)}}}
 	}
 	if f.name == g.name || interferes(f.name, g.name) || f.name == "--height" || g.name == "--height" {
 		return
